@@ -22,7 +22,8 @@ Host       == "host"                 \* the host the caller named
 Boot       == "boot"                 \* bootstrap config list generated from PublicName
 
 \* per-target outcome scripts: result of the 1st, 2nd ... DialFunc invocation for that target
-Scripts == { <<"ok">>, <<"err">>, <<"rejnil">>, <<"rejR1", "ok">>, <<"rejR1", "err">>, <<"rejR1", "rejR2">> }
+\* "rejSame": the server rejects ECH and hands back, as retry configs, the very list the attempt was made with
+Scripts == { <<"ok">>, <<"err">>, <<"rejnil">>, <<"rejR1", "ok">>, <<"rejR1", "err">>, <<"rejR1", "rejR2">>, <<"rejSame", "ok">>, <<"rejSame", "rejR2">> }
 RetryOf(o) == IF o = "rejR1" THEN "R1" ELSE IF o = "rejR2" THEN "R2" ELSE Nil
 
 VARIABLES n, cech, csn, req, pub, tech, script,      \* scenario (fixed in Init)
@@ -50,6 +51,8 @@ BaseEch == IF NeedECH /\ pub # "" THEN Boot ELSE cech            \* dial.go:197-
 SnFor(i) == IF csn = "" THEN Host ELSE csn                        \* dial.go:238-240
 EchFor(i) == IF NeedECH /\ tech[i] # Nil THEN tech[i] ELSE BaseEch \* dial.go:241-243
 
+RetryOfI(i, o) == IF o = "rejSame" THEN EchFor(i) ELSE RetryOf(o)      \* the retry configs the server hands out
+
 Refuse(i) ==
   /\ st[i] = "new" /\ req /\ EchFor(i) = Nil                      \* dial.go:244-247
   /\ st' = [st EXCEPT ![i] = "refused"]
@@ -68,14 +71,14 @@ Outcome(i) ==
   /\ st[i] = "called"
   /\ LET o == OutcomeOf(i) IN
        st' = [st EXCEPT ![i] = IF o = "ok" THEN "ok"
-                                 ELSE IF RetryOf(o) # Nil /\ att[i] = 1 THEN "retrying"   \* dial.go:309
+                                 ELSE IF RetryOfI(i, o) # Nil /\ att[i] = 1 THEN "retrying"   \* dial.go:309
                                  ELSE "failed"]
   /\ UNCHANGED <<scen, att, calls>>
 
 Invoke2(i) ==
   /\ st[i] = "retrying"
   /\ att' = [att EXCEPT ![i] = 2]
-  /\ calls' = calls \cup {[i |-> i, k |-> 2, sn |-> SnFor(i), ech |-> RetryOf(script[i][1])]}
+  /\ calls' = calls \cup {[i |-> i, k |-> 2, sn |-> SnFor(i), ech |-> RetryOfI(i, script[i][1])]}
   /\ st' = [st EXCEPT ![i] = "called"]
   /\ UNCHANGED scen
 
@@ -94,9 +97,9 @@ ServerNameFromCaller == \A c \in calls : c.sn = (IF csn # "" THEN csn ELSE Host)
 OneRetryExact ==
   \A i \in T :
      /\ att[i] <= 2 /\ Cardinality(First(i)) <= 1 /\ Cardinality(Second(i)) <= 1
-     /\ \A c \in Second(i) : /\ Len(script[i]) >= 1 /\ RetryOf(script[i][1]) # Nil
-                             /\ c.ech = RetryOf(script[i][1])
-RetryHappens == \A i \in T : (st[i] \in {"ok", "failed"} /\ RetryOf(script[i][1]) # Nil) => att[i] = 2
+     /\ \A c \in Second(i) : /\ Len(script[i]) >= 1 /\ RetryOfI(i, script[i][1]) # Nil
+                             /\ c.ech = RetryOfI(i, script[i][1])
+RetryHappens == \A i \in T : (st[i] \in {"ok", "failed"} /\ RetryOfI(i, script[i][1]) # Nil) => att[i] = 2
 TypeOK == /\ att \in [T -> 0..2]
           /\ st \in [T -> {"new", "refused", "called", "retrying", "failed", "ok"}]
 =============================================================================
